@@ -106,3 +106,11 @@ Definition all_present (n : nat) (amts : list Z) : bool :=
   (length (known_part n amts) =? n)%nat && (count_nonzero (known_part n amts) =? n)%nat.
 Definition sub_vec (a b : list Z) : list Z := map (fun xy => fst xy - snd xy) (zip a b).
 Definition add_vec (a b : list Z) : list Z := map (fun xy => fst xy + snd xy) (zip a b).
+
+(* the amounts of an operation are sdk.Int values: constructing one of more than 256 bits panics ("out of bound") *)
+Definition op_amounts_fit (o : op) : bool :=
+  match o with
+  | OSwapOut _ _ a | OCalcOut _ _ a | OSwapIn _ _ a | OCalcIn _ _ a | OExit a | OCalcExit a
+  | OExitSwapOut _ a | OCalcTokenInShareOut _ a => int_fits a
+  | OJoin l | OJoinNoSwap l | OCalcJoin l | OCalcJoinNoSwap l => forallb int_fits l
+  end.
